@@ -557,3 +557,37 @@ func Core(thorough bool, yield func(V) bool) {
 		}
 	}
 }
+
+// Aliased enumerates, for one builder, every value in which two 32-bit leaves
+// (SSRCs, sources, timestamps) carry the SAME value — the tagged base keeps all
+// fields distinct, so duplicate list entries would otherwise never occur.
+func Aliased(b Builder, mine func() bool, yield func(V) bool) bool {
+	if b.Type == "CompoundPacket" || b.Type == "RawPacket" {
+		return true
+	}
+	ls := Leaves(b.Make())
+	var idx []int
+	for i, l := range ls {
+		if l.Kind == "uint" && l.Bits == 32 {
+			idx = append(idx, i)
+		}
+	}
+	if len(idx) > 40 {
+		idx = idx[:40]
+	}
+	for a := 0; a < len(idx); a++ {
+		for c := a + 1; c < len(idx); c++ {
+			if mine != nil && !mine() {
+				continue
+			}
+			p := b.Make()
+			pl := Leaves(p)
+			v := pl[idx[a]].v.Uint()
+			pl[idx[c]].v.SetUint(v)
+			if !yield(V{P: p, Type: b.Type, Shape: b.Shape, Dev: fmt.Sprintf(" %s=%s(=%#x)", pl[idx[c]].Path, pl[idx[a]].Path, v)}) {
+				return false
+			}
+		}
+	}
+	return true
+}
